@@ -510,6 +510,15 @@ Theorem C09_taken_arm_safe_partial : forall pre arms k body cs pst,
 Proof. intros pre arms k. exact (len_fold_safe (taken_path pre arms k)). Qed.
 Print Assumptions C09_taken_arm_safe_partial.
 
+(* after the statement a name is folded iff NO arm writes it (then with the copy it had in front of the statement) *)
+Theorem C09_after_arms_forgets : forall t arms x, In x (arms_writes arms) -> t_cur (after_arms t arms) x = None.
+Proof. exact after_arms_forgets. Qed.
+Print Assumptions C09_after_arms_forgets.
+
+Theorem C09_after_arms_keeps : forall t arms x, ~ In x (arms_writes arms) -> t_cur (after_arms t arms) x = t_cur t x.
+Proof. exact after_arms_keeps. Qed.
+Print Assumptions C09_after_arms_keeps.
+
 (* l0 = [10, 20, 30]; l1 = [7, 8];  if ..: l0.append(40); l1.append(9); l1.append(10); l0[len(l0) - 1]  elif ..: l0[0]
    else: l0[len(l0) - 1]; l1[len(l1) - 1]   - the else arm is folded with 3 and 2 ... *)
 Example C09_arms_nonvacuous : arm_lens arms_pre arms_demo = [[None; None; None; Some 4]; [None]; [Some 3; Some 2]]%nat.
